@@ -78,6 +78,11 @@ type Input struct {
 	// start cases: another monitor with the same FactoryIndex is already running, so that
 	// FactoryStore.Start joins a started shared informer (AddEventHandler replays its store)
 	Joins bool `json:"joins,omitempty"`
+	// window cases (win.go; Mode "start" only): the monitor is STARTED while its events are still
+	// locked (as between AddMonitor/Start and the unlock that follows the binding's
+	// Synchronization); the harness calls Monitor.EnableKubeEventCb at the History entry with
+	// Batch "unlock" (at the end of the history when there is none)
+	Win bool `json:"win,omitempty"`
 	// Declared (decl.go): the binding is written as the TEXT of a v1 hook configuration and the
 	// MonitorConfig comes from the REAL loader.  Types/TypesUnset are then the key
 	// executeHookOnEvent (TypesUnset = key absent), Watch/WatchSet the deprecated key
@@ -138,6 +143,10 @@ type Obs struct {
 	// start cases: the resource ids of the deliveries the shared informer made at its start
 	// (one per existing object is expected), in the order they were seen
 	Replay []int `json:"replay,omitempty"`
+	// window cases: the KubeEvents the monitor's callback got during the harness's
+	// Monitor.EnableKubeEventCb call, in order; Unlocked = that call was made and returned
+	Flushed  []Fired `json:"flushed,omitempty"`
+	Unlocked bool    `json:"unlocked,omitempty"`
 	// declared cases: the text given to the real loader, MonitorConfig.EventTypes as the
 	// loader left it (nil = the loader did not get that far), the loader's error
 	ConfigText string    `json:"config_text,omitempty"`
@@ -470,9 +479,23 @@ func Render(in Input, obs *Obs, crash string) core.Case {
 			core.CoqList(s.Cache, func(c CacheEntry) string { return fmt.Sprintf("(%d, %d)", c.Id, c.State) }))
 	})
 	c := core.Case{}
-	c.Coq = fmt.Sprintf("(mkCase %s %s %s %s %s\n  %s\n  %s\n  %s %s %s\n  %s\n  %s)", types, watch, core.CoqBool(in.Declared), eff,
+	win, flushed := "None", "[]"
+	if real && in.Win {
+		win = fmt.Sprintf("(Some %d)", len(pl.existing)+pl.unlockAt)
+		fl := o.Flushed
+		if crash != "" {
+			fl = nil
+		}
+		flushed = core.CoqList(fl, func(f Fired) string {
+			if f.Type == "?" {
+				return fmt.Sprintf("(Deleted, %d)", unknownState)
+			}
+			return fmt.Sprintf("(%s, %d)", coqType(f.Type), f.State)
+		})
+	}
+	c.Coq = fmt.Sprintf("(mkCase %s %s %s %s %s\n  %s\n  %s\n  %s %s %s\n  %s\n  %s\n  %s %s)", types, watch, core.CoqBool(in.Declared), eff,
 		core.CoqBool(in.Filter != ""), states, answers,
-		core.CoqBool(real), core.CoqList(listed, core.CoqN), cache0, hist, obsl)
+		core.CoqBool(real), core.CoqList(listed, core.CoqN), cache0, hist, obsl, win, flushed)
 	c.JSON = o
 	kb, _ := json.Marshal(in)
 	c.Key = string(kb)
@@ -601,6 +624,11 @@ func Render(in Input, obs *Obs, crash string) core.Case {
 		c.Tags = append(c.Tags, pl.tags(in, effList)...)
 		// a start case: at least one existing object was replayed and something else was delivered
 		c.Nontrivial = len(listed) >= 1 && len(history) >= 2 && len(o.Steps) == len(history)
+		if in.Win {
+			c.Tags = append(c.Tags, winTags(in, pl, &o)...)
+			// a window case: the unlock handed over at least two saved events, everything observed
+			c.Nontrivial = o.Unlocked && len(o.Flushed) >= 2 && len(o.Steps) == len(history)
+		}
 	} else {
 		c.Tags = append(c.Tags, "mode:harness-calls-the-handlers(informer not started)")
 		if in.Declared && !in.TypesUnset && len(in.Types) == 0 {
@@ -1041,6 +1069,9 @@ func Gen(r *core.Rng, tier string) ([]core.In[Input], bool) {
 	for _, c := range AlikeCorpus() {
 		ins = append(ins, core.In[Input]{Input: c, Stream: "corpus"})
 	}
+	for _, c := range WinCorpus() {
+		ins = append(ins, core.In[Input]{Input: c, Stream: "corpus"})
+	}
 	for _, c := range TriggerCorpus() {
 		ins = append(ins, core.In[Input]{Input: c, Stream: "trigger-F8"})
 	}
@@ -1052,13 +1083,16 @@ func Gen(r *core.Rng, tier string) ([]core.In[Input], bool) {
 	declRounds, declStartEvery := 1, 3
 	nMulti := 150
 	nAlike, nAlikeStart := 170, 30
+	nWin := 96
 	switch tier {
 	case "thorough":
+		nWin = 4000
 		nAlike, nAlikeStart = 8000, 1200
 		n, maxLen, nStart = 10000, 12, 3600
 		declRounds, declStartEvery = 25, 4
 		nMulti = 6000
 	case "search":
+		nWin = 1500
 		nAlike, nAlikeStart = 1500, 300
 		n, maxLen, nStart = 2000, 8, 900
 		declRounds, declStartEvery = 6, 3
@@ -1127,11 +1161,13 @@ func Gen(r *core.Rng, tier string) ([]core.In[Input], bool) {
 	ins = append(ins, g.multiCases(nMulti, maxLen)...)
 	// look-alike projections (alike.go); last again, so that the streams above are generated as before
 	ins = append(ins, g.alikeCases(nAlike, nAlikeStart, maxLen)...)
+	// the saved-events window with flapping objects (win.go); last again
+	ins = append(ins, g.winCases(nWin)...)
 	return ins, false
 }
 
 var Driver = core.Driver[Input, Obs]{
 	Spec: core.Spec{Property: "C08", Imports: []string{"Json", "C08_Model", "C08_Spec", "C08_Corr"}, Corr: "C08_Corr", Triggers: []string{"F8", "F16"}, ShrinkKey: "history",
-		Rule: "scripted histories of watch events (1-3 objects; creations, single-field changes mostly outside a given projection, re-deliveries of the identical state, flips back to earlier states, deletes and re-creations) delivered to the resourceInformer of a real monitor (NewMonitor+CreateInformers on a fake cluster, not started) through its client-go handler methods OnAdd/OnUpdate/OnDelete; the handler's argument in both forms client-go uses: the *unstructured.Unstructured itself, or - in 3 cases of 5 for half of the Deleted deliveries - the cache.DeletedFinalStateUnknown tombstone (by value) that a real client-go DeltaFIFO.Replace produces for an object missing from a relist; in those cases also relist batches (15% per step: per object changed / deleted-and-recreated -> OnUpdate, unchanged -> OnUpdate or left out, new -> OnAdd, then tombstones for the missing ones); all 8 subsets of {Added,Modified,Deleted} and 'not configured' round robin; filter family: none, object paths, constructed objects (main stream), scalars, arrays, null, empty/select, multiple outputs (trigger-F8 stream, ~27%), failing filters (trigger-F16 stream, ~8%); /usr/bin/jq answers for every state are the model's oracle table; non-trivial = >= 3 deliveries with at least one fired and one silent delivery; distinct = distinct input text. START CASES (stream 'start', 126 of the quick tier, and 8 corpus cases; harness/internal/c08/start.go): 0-3 objects exist in the fake cluster as an API server returns them (uid, resourceVersion, creationTimestamp, labels, sometimes generation and the last-applied annotation, 65% with metadata.managedFields); then the monitor is created (loadExistedObjects lists them; the snapshot right after is compared), unlocked and STARTED: the real client-go shared informer (FactoryStore.Start; in 30% another binding's monitor runs already and the informer is joined) makes every delivery - its replay of the existing objects, then 0-3 ordinary cluster operations (create, update with the resourceVersion moved / managedFields rewritten / bookkeeping only, delete, re-create); bindings: no jqFilter 35%, `.` 13%, `.metadata` 13%, `.data` 10%, del(.status), constructed objects over metadata / labels / data / managedFields; every subset of event types and 'not configured' round robin; each delivery is observed from the informer's own goroutine (handler that ran, object delivered, events fired, snapshot); the environment assumption of C08_start_redelivery_silent (the informer re-delivers exactly the listed objects, unchanged) is checked on every such case; non-trivial start case = at least one existing object replayed and at least two deliveries, all observed. DECLARED CASES (streams 'declared' / 'declared-start', 81 + 27 of the quick tier, and 11 corpus cases; harness/internal/c08/decl.go): the binding is written as the TEXT of a v1 hook configuration - executeHookOnEvent absent or any of the 8 subsets, the deprecated watchEvent absent or any of the 8 subsets: all 81 pairs in every run (thorough: 25 rounds), lists permuted (30%) or with a repeated element (10%), JSON / YAML flow / YAML block round robin, the two keys in either order, sometimes name and executeHookOnSynchronization:false - and given to the REAL loader (HookConfig.LoadAndValidate: schema validation, yaml unmarshalling, HookConfigV1.ConvertAndCheck); the monitor runs with the MonitorConfig the loader returned (created as KubeEventsManager.AddMonitor does) with the harness calling the handlers (histories as above, 1-2 objects, up to 6 deliveries) or, one case in three, as a start case with the real shared informer; MonitorConfig.EventTypes as loaded is compared with the model's conversion (effective_types) and every observation is judged by P_decl against the DECLARED list; non-trivial declared case = as for its mode, for `executeHookOnEvent: []` at least three deliveries all kept silent. MULTI-OUTPUT CASES (stream 'multi-output', 150 of the quick tier, 6000 thorough, and 6 corpus cases; harness/internal/c08/multi.go): the jqFilter is a comma list of 2-4 parts out of 19 (paths .metadata.labels/.data/.spec/.status/.a/.b/.items/.metadata.annotations that are an object for one object state and null, a scalar, an array for another; constructed objects; null, 1, a string, empty, .items[]?, [.a], (.a|objects), .a?.k?) - any of the 342 ordered pairs (50%), random triples/quadruples (25%), 16 written-out filters (.metadata.labels, .data / .a, .b, .c / .[]? / empty / ...; 25%) - over histories as above whose object states switch the parts' sources on and off (labels, data, annotations, spec, status removed / added; .a, .b, .c object <-> scalar <-> null) and change values inside them; every subset of event types, all three listed in 1 of 3; the FilterResult of every delivery (cache entry, else fired event) is compared with the model's merge of /usr/bin/jq's outputs and judged by the specification's clause fr_shows (for every key the last object output binding it), the trigger decision by P; F8 excuses only histories in which two DIFFERING results merge into the same object (T_F8m). LOOK-ALIKE CASES (streams 'look-alike' 170 / 'look-alike-start' 30 of the quick tier, 8000 / 1200 thorough, and 6 corpus cases; harness/internal/c08/alike.go): the VALUE DOMAIN of projections - Services (spec.ports[i].targetPort, an IntOrString; metadata.annotations; spec.selector) and ConfigMaps (data, data values, annotations, a free field .x holding a small tree), 10 jqFilters each (constructed objects over targetPorts / annotations / data / .x, .spec, .data, no filter), kinds alternating, filters round robin, Modified listed in 7 cases of 9; the histories (as above: changes, re-deliveries, deletes, relist batches, or - start cases - cluster operations delivered by the real shared informer) move a selected field, at a random position of its value tree, between look-alikes: a value and its Go fmt text as a string (9090 / \"9090\", true / \"true\", null / \"<nil>\", a map / \"map[a:x]\", an array / \"[x y]\"), a value and its JSON text as a string, a string and the JSON value it spells (\"null\" / null, \"1.5\" / 1.5), the next key folded into a string value and back ({a:x,b:y} / {a:\"x b:y\"}, also with , and \",\" as separators), two array elements folded into one string and back, the same number written n / n.0 (the SAME value: must stay silent), ordinary changes, changes outside the projection; the projections are /usr/bin/jq's answers and Coq compares them structurally as JSON values (P and the clause modified_values_ok); every state and answer is checked to be a JSON value in the sense of val_ok (hypothesis of the checksum theorems)"},
+		Rule: "scripted histories of watch events (1-3 objects; creations, single-field changes mostly outside a given projection, re-deliveries of the identical state, flips back to earlier states, deletes and re-creations) delivered to the resourceInformer of a real monitor (NewMonitor+CreateInformers on a fake cluster, not started) through its client-go handler methods OnAdd/OnUpdate/OnDelete; the handler's argument in both forms client-go uses: the *unstructured.Unstructured itself, or - in 3 cases of 5 for half of the Deleted deliveries - the cache.DeletedFinalStateUnknown tombstone (by value) that a real client-go DeltaFIFO.Replace produces for an object missing from a relist; in those cases also relist batches (15% per step: per object changed / deleted-and-recreated -> OnUpdate, unchanged -> OnUpdate or left out, new -> OnAdd, then tombstones for the missing ones); all 8 subsets of {Added,Modified,Deleted} and 'not configured' round robin; filter family: none, object paths, constructed objects (main stream), scalars, arrays, null, empty/select, multiple outputs (trigger-F8 stream, ~27%), failing filters (trigger-F16 stream, ~8%); /usr/bin/jq answers for every state are the model's oracle table; non-trivial = >= 3 deliveries with at least one fired and one silent delivery; distinct = distinct input text. START CASES (stream 'start', 126 of the quick tier, and 8 corpus cases; harness/internal/c08/start.go): 0-3 objects exist in the fake cluster as an API server returns them (uid, resourceVersion, creationTimestamp, labels, sometimes generation and the last-applied annotation, 65% with metadata.managedFields); then the monitor is created (loadExistedObjects lists them; the snapshot right after is compared), unlocked and STARTED: the real client-go shared informer (FactoryStore.Start; in 30% another binding's monitor runs already and the informer is joined) makes every delivery - its replay of the existing objects, then 0-3 ordinary cluster operations (create, update with the resourceVersion moved / managedFields rewritten / bookkeeping only, delete, re-create); bindings: no jqFilter 35%, `.` 13%, `.metadata` 13%, `.data` 10%, del(.status), constructed objects over metadata / labels / data / managedFields; every subset of event types and 'not configured' round robin; each delivery is observed from the informer's own goroutine (handler that ran, object delivered, events fired, snapshot); the environment assumption of C08_start_redelivery_silent (the informer re-delivers exactly the listed objects, unchanged) is checked on every such case; non-trivial start case = at least one existing object replayed and at least two deliveries, all observed. DECLARED CASES (streams 'declared' / 'declared-start', 81 + 27 of the quick tier, and 11 corpus cases; harness/internal/c08/decl.go): the binding is written as the TEXT of a v1 hook configuration - executeHookOnEvent absent or any of the 8 subsets, the deprecated watchEvent absent or any of the 8 subsets: all 81 pairs in every run (thorough: 25 rounds), lists permuted (30%) or with a repeated element (10%), JSON / YAML flow / YAML block round robin, the two keys in either order, sometimes name and executeHookOnSynchronization:false - and given to the REAL loader (HookConfig.LoadAndValidate: schema validation, yaml unmarshalling, HookConfigV1.ConvertAndCheck); the monitor runs with the MonitorConfig the loader returned (created as KubeEventsManager.AddMonitor does) with the harness calling the handlers (histories as above, 1-2 objects, up to 6 deliveries) or, one case in three, as a start case with the real shared informer; MonitorConfig.EventTypes as loaded is compared with the model's conversion (effective_types) and every observation is judged by P_decl against the DECLARED list; non-trivial declared case = as for its mode, for `executeHookOnEvent: []` at least three deliveries all kept silent. MULTI-OUTPUT CASES (stream 'multi-output', 150 of the quick tier, 6000 thorough, and 6 corpus cases; harness/internal/c08/multi.go): the jqFilter is a comma list of 2-4 parts out of 19 (paths .metadata.labels/.data/.spec/.status/.a/.b/.items/.metadata.annotations that are an object for one object state and null, a scalar, an array for another; constructed objects; null, 1, a string, empty, .items[]?, [.a], (.a|objects), .a?.k?) - any of the 342 ordered pairs (50%), random triples/quadruples (25%), 16 written-out filters (.metadata.labels, .data / .a, .b, .c / .[]? / empty / ...; 25%) - over histories as above whose object states switch the parts' sources on and off (labels, data, annotations, spec, status removed / added; .a, .b, .c object <-> scalar <-> null) and change values inside them; every subset of event types, all three listed in 1 of 3; the FilterResult of every delivery (cache entry, else fired event) is compared with the model's merge of /usr/bin/jq's outputs and judged by the specification's clause fr_shows (for every key the last object output binding it), the trigger decision by P; F8 excuses only histories in which two DIFFERING results merge into the same object (T_F8m). LOOK-ALIKE CASES (streams 'look-alike' 170 / 'look-alike-start' 30 of the quick tier, 8000 / 1200 thorough, and 6 corpus cases; harness/internal/c08/alike.go): the VALUE DOMAIN of projections - Services (spec.ports[i].targetPort, an IntOrString; metadata.annotations; spec.selector) and ConfigMaps (data, data values, annotations, a free field .x holding a small tree), 10 jqFilters each (constructed objects over targetPorts / annotations / data / .x, .spec, .data, no filter), kinds alternating, filters round robin, Modified listed in 7 cases of 9; the histories (as above: changes, re-deliveries, deletes, relist batches, or - start cases - cluster operations delivered by the real shared informer) move a selected field, at a random position of its value tree, between look-alikes: a value and its Go fmt text as a string (9090 / \"9090\", true / \"true\", null / \"<nil>\", a map / \"map[a:x]\", an array / \"[x y]\"), a value and its JSON text as a string, a string and the JSON value it spells (\"null\" / null, \"1.5\" / 1.5), the next key folded into a string value and back ({a:x,b:y} / {a:\"x b:y\"}, also with , and \",\" as separators), two array elements folded into one string and back, the same number written n / n.0 (the SAME value: must stay silent), ordinary changes, changes outside the projection; the projections are /usr/bin/jq's answers and Coq compares them structurally as JSON values (P and the clause modified_values_ok); every state and answer is checked to be a JSON value in the sense of val_ok (hypothesis of the checksum theorems). WINDOW CASES (stream 'window', 96 of the quick tier, 4000 thorough, and 8 corpus cases; harness/internal/c08/win.go): a start case whose monitor is STARTED while its events are still locked (the window between the monitor's start and the unlock that follows the binding's Synchronization: fired KubeEvents are saved in the informer's eventBuf); 0-2 objects exist, 1-2 objects FLAP through a cycle of 2 or 3 states (A -> B -> A -> B ..., A -> B -> C -> A ...; the states differ in .data, in labels or in bookkeeping only, so that some projections see the change and some do not) or are created / deleted / re-created with the same content, 3-9 cluster operations, every one delivered by the real shared informer; the harness calls Monitor.EnableKubeEventCb at a random place of the history (before all operations, between them, after all of them) so that the flapping lies inside, across and after the window, and records the KubeEvents the callback got during that call, in order; every subset of event types and 'not configured' round robin, filters of the start class; compared with the model of the lock and the buffer (run_w: per delivery nothing reaches the callback while locked, the unlock hands over the saved events) and judged by the specification's window clause P_win_decl (the triggers got at the unlock are exactly the changes of the window that pass the rule against the last known projection at their place, in order; snapshots follow every change; after the unlock P goes on); non-trivial window case = the unlock handed over at least two saved events and every delivery was observed"},
 	Gen: Gen, Run: Run, Render: Render, PerShard: 60, Workers: 8, CaseTimout: 20 * time.Second,
 }
